@@ -143,10 +143,7 @@ class Taps:
         return False
 
 
-def run(spec, taps=True, lookup=None, extra_taps=None):
-    """Build the call from the spec and run it.  Returns (built, trace)."""
-    b = S.build(spec, lookup=lookup)
-    t = Trace()
+def make_kwargs(b):
     kw = {}
     if b.bounds is not None:
         kw["bounds"] = b.bounds
@@ -162,6 +159,14 @@ def run(spec, taps=True, lookup=None, extra_taps=None):
         kw["args"] = b.args
     kw.update(b.constants)
     b.kw = kw
+    return kw
+
+
+def run(spec, taps=True, lookup=None, extra_taps=None, hook=None, prebuilt=None):
+    """Build the call from the spec and run it.  Returns (built, trace)."""
+    b = prebuilt if prebuilt is not None else S.build(spec, lookup=lookup, hook=hook)
+    t = Trace()
+    kw = make_kwargs(b)
     out = io.StringIO()
     with contextlib.ExitStack() as stack:
         if taps:
